@@ -81,3 +81,37 @@ func (c *Ctx) vetoOnlyAfterCheck(rule string) {
 		r.Unknown(rule, "", "census", "-", sprintf("only %d FireBefore(EventAuth) sites found (confirmed by hand: 5)", n))
 	}
 }
+
+// localizeFallback: totp2fa decides "code accepted" by comparing the status
+// text its validate() returns with Localizef(TxtSuccess). That comparison
+// separates outcomes only while distinct keys give distinct texts; with a
+// partial catalogue the Localizer answers "" for every missing key, so the
+// helper must fall back to the key's own default text for an empty answer.
+func (c *Ctx) localizeFallback(rule string) {
+	r := c.R
+	fn := c.P.Func("(*ab.Authboss).Localizef")
+	name := FuncName(fn)
+	nLoc, nDef := 0, 0
+	for _, b := range fn.Blocks {
+		ret, ok := b.Instrs[len(b.Instrs)-1].(*ssa.Return)
+		if !ok || len(ret.Results) != 1 {
+			continue
+		}
+		v := ret.Results[0]
+		call, _ := CallOf(v)
+		switch {
+		case call != nil && call.Common().IsInvoke() && call.Common().Method.Name() == "Localizef":
+			nLoc++
+			ok := HasFact(FactsAtInstr(ret), func(f Fact) bool { return f.SaysNonEmpty(v) })
+			r.Check(ok, rule, name, "translated text returned only when non-empty", posf(c, ret), "empty translations fall back to the default text", "the Localizer's answer is returned even when it is empty: with a partial catalogue \"invalid code\" and \"success\" are both \"\", and totp2fa, which compares these texts, accepts any code (remove, validate)")
+		case call != nil && Callee(call) == "fmt.Sprintf":
+			nDef++
+		default:
+			r.Bad(rule, name, "return", posf(c, ret), "returns neither the translation nor the formatted default text")
+		}
+	}
+	if nDef == 0 {
+		r.Bad(rule, name, "default text", c.P.Pos(fn.Pos()), "the key's default text is never returned")
+	}
+	_ = nLoc
+}
